@@ -57,7 +57,7 @@ def make_small(rng):
                            'Float64_na', 'string_na', 'Int64_unique_one_na', 'many_nan_float',
                            'categorical_unused', 'datetime_nat', 'bigint_unique', 'sorted_dup_gap',
                            'sorted_unique', 'sorted_desc_dup', 'timedelta_nat', 'sorted_float_dup_gap',
-                           'sorted_str_dup', 'obj_distinct_nans', 'tz_dst', 'tz_dst'])
+                           'sorted_str_dup', 'obj_distinct_nans', 'tz_dst', 'tz_dst', 'obj_bigint_nan'])
         name = 'c%d_%s' % (c, kind)
         if kind in ('sorted_dup_gap', 'sorted_desc_dup', 'sorted_float_dup_gap', 'sorted_unique'):
             # consecutive ids in sorted order; one id repeated and the next one skipped, so that first,
@@ -92,6 +92,14 @@ def make_small(rng):
         elif kind == 'timedelta_nat':
             cols[name] = pd.Series([pd.NaT if rng.random() < 0.2 else pd.Timedelta(hours=rng.randint(0, 2 * n))
                                     for _ in range(n)], dtype='timedelta64[ns]')
+        elif kind == 'obj_bigint_nan':
+            # Python ints beyond 2**53 next to each other (no float64 tells them apart) with float NaN
+            # cells in an object column: any numeric coercion collapses the distinct count
+            base = 2 ** rng.choice([54, 60, 62])
+            vals = [base + rng.randint(0, n) for _ in range(n)]
+            for i in rng.sample(range(n), max(1, n // 5)):
+                vals[i] = float('nan')
+            cols[name] = pd.Series(vals, dtype=object)
         elif kind == 'bigint_unique':
             cols[name] = pd.Series([2 ** 53 + 1 + 2 * x for x in rng.sample(range(10 * n + 5), n)], dtype='int64')
         elif kind == 'int_unique':
